@@ -331,6 +331,8 @@ def _insertions(f, name, handled=()):
         if isinstance(c, ast.Call) and isinstance(c.func, ast.Attribute) and isinstance(c.func.value, ast.Name) and c.func.value.id == name:
             if c.func.attr == 'append':
                 out.append(('tail', c))
+            elif c.func.attr == 'appendleft' and len(c.args) == 1:
+                out.append(('head', c))  # collections.deque: appendleft(x) is insert(0, x)
             elif c.func.attr == 'insert':
                 pos = c.args[0] if c.args else None
                 if isinstance(pos, ast.Constant) and pos.value == 0:
@@ -358,7 +360,7 @@ def _post_reversals(f, names):
 
     def inserts_into(st, name):
         return any(isinstance(c, ast.Call) and isinstance(c.func, ast.Attribute) and isinstance(c.func.value, ast.Name)
-                   and c.func.value.id == name and c.func.attr in ('append', 'insert', 'extend') for c in walk_self(st))
+                   and c.func.value.id == name and c.func.attr in ('append', 'insert', 'extend', 'appendleft') for c in walk_self(st))
 
     for name in names:
         last_ins = max([i for i, st in enumerate(body) if inserts_into(st, name)] or [-1])
@@ -391,7 +393,7 @@ def _distribution_table(run, f, roles, role_of, mode):
     reversed_roles = {stack_role[n] for (n, rev) in roles if bool(rev) != bool(post_rev[n])}
     loops = [n for n in walk_self(f.node) if isinstance(n, ast.For)
              and any(isinstance(c, ast.Call) and isinstance(c.func, ast.Attribute) and isinstance(c.func.value, ast.Name)
-                     and c.func.value.id in stack_role and c.func.attr in ('append', 'insert') for c in walk_self(n))]
+                     and c.func.value.id in stack_role and c.func.attr in ('append', 'insert', 'appendleft') for c in walk_self(n))]
     # the outermost loop that contains the insertions (the loop over components)
     loops = [lp for lp in loops if not any(lp is not o and any(x is lp for x in walk_self(o)) for o in loops)]
     if len(loops) != 1:
@@ -472,6 +474,8 @@ def _distribution_table(run, f, roles, role_of, mode):
                     events.append((role, 'tail', item_kind(c.args[0], env)))
                 elif c.func.attr == 'insert' and len(c.args) == 2 and isinstance(c.args[0], ast.Constant) and c.args[0].value == 0:
                     events.append((role, 'head', item_kind(c.args[1], env)))
+                elif c.func.attr == 'appendleft' and len(c.args) == 1:
+                    events.append((role, 'head', item_kind(c.args[0], env)))
                 else:
                     raise _Unevaluable('insertion %s' % short(c))
                 continue
@@ -647,7 +651,7 @@ def _role_binding_table(run, f, comp_loop, asgi_param):
     # the binding statements: the leading statements of the loop body up to the first one that mentions a stack insertion
     head = []
     for st in comp_loop.body:
-        if any(isinstance(c, ast.Call) and isinstance(c.func, ast.Attribute) and c.func.attr in ('append', 'insert') for c in walk_self(st)):
+        if any(isinstance(c, ast.Call) and isinstance(c.func, ast.Attribute) and c.func.attr in ('append', 'insert', 'appendleft') for c in walk_self(st)):
             break
         head.append(st)
     import itertools
@@ -719,7 +723,7 @@ def r3_stacks(run):
     # how the three method locals of a component are bound: evaluated on all presence patterns of
     # <role> / <role>_async (each role falls back from the *_async spelling to the plain one on its own)
     comp_loops = [n for n in walk_self(f.node) if isinstance(n, ast.For) and isinstance(n.target, ast.Name)
-                  and any(isinstance(c, ast.Call) and isinstance(c.func, ast.Attribute) and c.func.attr in ('append', 'insert') for c in walk_self(n))]
+                  and any(isinstance(c, ast.Call) and isinstance(c.func, ast.Attribute) and c.func.attr in ('append', 'insert', 'appendleft') for c in walk_self(n))]
     comp_loops = [lp for lp in comp_loops if not any(lp is not o and any(x is lp for x in walk_self(o)) for o in comp_loops)]
     local_role = {}
     asgi_param = params[2] if len(params) > 2 else None
@@ -1216,8 +1220,38 @@ def r7_class_hooks(run):
         g = inner[0]
         run.use(g)
         param = g.params()[0]
+        # the wrapper the decorator applies is its own: before -> _wrap_with_before, after -> _wrap_with_after,
+        # whether it is called directly or handed to a helper
+        want_wrapper = '_wrap_with_' + outer.name
+        refs = sorted({x.id for x in ast.walk(outer.node) if isinstance(x, ast.Name) and x.id.startswith('_wrap_with_')})
+        run.check(refs == [want_wrapper], '%s applies %s (and no other wrapper) to the responders it decorates' % (outer.name, want_wrapper),
+                  outer, 'wrappers referenced: %s' % (', '.join(refs) or 'none'), where=outer.loc(),
+                  runtime_witness='@falcon.before(hook) on a class runs the hook AFTER the responder')
         loops = [n for n in walk_self(g.node) if isinstance(n, (ast.For, ast.AsyncFor))
                  and any(isinstance(x, ast.Name) and x.id == param for x in ast.walk(n.iter))]
+        if not loops:
+            # the member loop may live in a module-level helper that is handed the decorated class: look through it
+            mod_q = outer_q.rsplit('.', 1)[0]
+            for c in walk_self(g.node):
+                if isinstance(c, ast.Call) and isinstance(c.func, ast.Name):
+                    pos = [i for i, a in enumerate(c.args) if isinstance(a, ast.Name) and a.id == param]
+                    if len(pos) != 1:
+                        continue
+                    try:
+                        h = p.func(mod_q + '.' + c.func.id)
+                    except Exception:
+                        continue
+                    hp = h.params()
+                    if pos[0] >= len(hp):
+                        continue
+                    hparam = hp[pos[0]]
+                    hl = [n for n in walk_self(h.node) if isinstance(n, (ast.For, ast.AsyncFor))
+                          and any(isinstance(x, ast.Name) and x.id == hparam for x in ast.walk(n.iter))]
+                    rebound = any(isinstance(x, ast.Name) and x.id == hparam and isinstance(x.ctx, ast.Store) for x in ast.walk(h.node))
+                    if hl and not rebound:
+                        g, param, loops = h, hparam, hl
+                        run.use(h)
+                        break
         if not loops:
             raise AnchorError('%s: no loop over the members of the decorated class' % g.qual)
         for lp in loops:
@@ -1333,10 +1367,19 @@ def r8_decorable_names(run):
     used = set()
     for outer_q in ('falcon.hooks.before', 'falcon.hooks.after'):
         for g in p.func(outer_q).nested.values():
+            # the closure itself, plus module-level helpers of falcon.hooks it calls (an extracted member loop)
+            bodies = [g.node]
             for c in walk_self(g.node):
-                if isinstance(c, ast.Call) and isinstance(c.func, ast.Attribute) and c.func.attr in ('match', 'fullmatch', 'search') \
-                        and isinstance(c.func.value, ast.Name) and c.func.value.id in hooks.consts:
-                    used.add(c.func.value.id)
+                if isinstance(c, ast.Call) and isinstance(c.func, ast.Name):
+                    try:
+                        bodies.append(p.func('falcon.hooks.' + c.func.id).node)
+                    except Exception:
+                        pass
+            for body in bodies:
+                for c in walk_self(body):
+                    if isinstance(c, ast.Call) and isinstance(c.func, ast.Attribute) and c.func.attr in ('match', 'fullmatch', 'search') \
+                            and isinstance(c.func.value, ast.Name) and c.func.value.id in hooks.consts:
+                        used.add(c.func.value.id)
     if not used:
         raise AnchorError('falcon.hooks: no module-level responder-name pattern is consulted by before()/after()')
     for name in sorted(used):
